@@ -163,7 +163,15 @@ class ObjRunner:
         if name == "isinstance" and len(call.args) == 2:
             args = [interp.ev(call.args[0])]
         else:
-            args = [interp.ev(a) for a in call.args]
+            args = []
+            for a in call.args:
+                if isinstance(a, ast.Starred):
+                    seq = interp.ev(a.value)
+                    if isinstance(seq, Unknown):
+                        raise AnalysisError(f"object model: *{U(a.value)} is undetermined")
+                    args.extend(list(seq))
+                else:
+                    args.append(interp.ev(a))
         kw = {k.arg: interp.ev(k.value) for k in call.keywords if k.arg}
         if self.extra_hook is not None:
             res = self.extra_hook(self, interp, call, args, kw)
@@ -200,6 +208,10 @@ class ObjRunner:
                 and self.cinfo(call.func.value.id) is not None and self.find(call.func.value.id, call.func.attr) is not None:
             clsobj = {"__class__": call.func.value.id, "__is_class__": True}
             return self.run_function(self.find(call.func.value.id, call.func.attr), clsobj, args, kw)
+        if isinstance(call.func, ast.Attribute) and isinstance(call.func.value, ast.Name) and call.func.value.id not in interp.env:
+            target_rel = self._module_alias(call, call.func.value.id)
+            if target_rel is not None and f"{target_rel}::{call.func.attr}" in self.prog.funcs:
+                return self.run_function(self.prog.funcs[f"{target_rel}::{call.func.attr}"], None, args, kw, plain=True)
         if isinstance(call.func, ast.Attribute):
             recv = interp.ev(call.func.value)
             attr = call.func.attr
@@ -239,6 +251,25 @@ class ObjRunner:
             if key in self.prog.funcs:
                 return self.run_function(self.prog.funcs[key], None, args, kw, plain=True)
         raise AnalysisError(f"object model: unsupported call {U(call)[:80]!r}")
+
+    def _module_alias(self, call, alias):
+        """Repository module a name is bound to by `from . import m as alias` / `from .. import m` in the calling module."""
+        mod = getattr(call, "_module", None)
+        if mod is None:
+            return None
+        base = mod.rel.rsplit("/", 1)[0] + "/" if "/" in mod.rel else ""
+        for st in mod.tree.body:
+            if isinstance(st, ast.ImportFrom) and st.level >= 1:
+                src_dir = base
+                for _ in range(st.level - 1):
+                    src_dir = src_dir.rstrip("/").rsplit("/", 1)[0] + "/" if "/" in src_dir.rstrip("/") else ""
+                pkg = (st.module or "").replace(".", "/")
+                for a in st.names:
+                    if (a.asname or a.name) == alias:
+                        for cand in (f"{src_dir}{pkg + '/' if pkg else ''}{a.name}.py", f"{src_dir}{pkg + '/' if pkg else ''}{a.name}/__init__.py"):
+                            if cand in self.prog.modules:
+                                return cand
+        return None
 
     @staticmethod
     def _from_math(call, name):
